@@ -585,6 +585,11 @@ type FuncContract struct {
 	// Stream: two-state invariants (over old()) of an in-repo method that are preserved by every call of the method
 	// (and hold reflexively); used to summarise an unknown number of calls made by a `repeats` callee.
 	Stream []Clause
+	// Given: definitional axioms of ghost functions used by this contract (e.g. a trace function defined by recursion over a
+	// slice in the heap): assumed at function entry and at call sites (pre-state); reported as definitional assumptions.
+	Given []Clause
+	// CbGiven: assumed just before a callback named in `invokes` runs (over cbarg0, cbarg1, ...: the arguments it is called with)
+	CbGiven []Clause
 	// Implements: key of the interface-method contract this in-repo method refines, e.g. "(io.Reader).Read".
 	Implements string
 	Assigns  *AssignsSpec
@@ -665,7 +670,7 @@ func ParseFile(path, text string, goFile bool) (*File, error) {
 	}
 	// group lines into logical clauses: a clause starts with a keyword at the
 	// beginning of the (trimmed) line; other lines continue the previous one.
-	kw := []string{"package", "import", "sort", "pure", "ghost", "lemma", "axiom", "func", "extern", "requires", "ensures", "assigns", "loop", "invariant", "decreases", "use", "inline", "noinline", "trusted", "opaque", "trigger", "invokes", "assumes", "defines", "repeats", "stream", "implements"}
+	kw := []string{"package", "import", "sort", "pure", "ghost", "lemma", "axiom", "func", "extern", "requires", "ensures", "assigns", "loop", "invariant", "decreases", "use", "inline", "noinline", "trusted", "opaque", "trigger", "invokes", "assumes", "defines", "repeats", "stream", "implements", "given", "cbgiven"}
 	var clauses []string
 	for _, ln := range lines {
 		t := strings.TrimSpace(ln)
@@ -773,7 +778,7 @@ func ParseFile(path, text string, goFile bool) (*File, error) {
 				return nil, fail(fmt.Errorf("implements outside func"))
 			}
 			curF.Implements = strings.TrimSpace(rest)
-		case "requires", "ensures", "invariant", "assumes", "defines", "stream":
+		case "requires", "ensures", "invariant", "assumes", "defines", "stream", "given", "cbgiven":
 			cl, err := parseClause(rest)
 			if err != nil {
 				return nil, fail(err)
@@ -794,6 +799,10 @@ func ParseFile(path, text string, goFile bool) (*File, error) {
 				curF.Defines = append(curF.Defines, cl)
 			case word == "stream":
 				curF.Stream = append(curF.Stream, cl)
+			case word == "given":
+				curF.Given = append(curF.Given, cl)
+			case word == "cbgiven":
+				curF.CbGiven = append(curF.CbGiven, cl)
 			default:
 				curF.Ensures = append(curF.Ensures, cl)
 			}
